@@ -55,8 +55,8 @@ def parseOp (ws : List String) : Option PeerOut.Op :=
   | ["m", "havenone"] => some .mHaveNone
   | ["m", "allowedfast", i] => i.toNat?.map .mAllowedFast
   | ["m", "reject", i, b, k] => do pure (.mReject (← i.toNat?) (← b.toNat?) (← kOf k))
-  | ["m", "piece", i, b, st, k] => do
-    pure (.mPiece (← i.toNat?) (← b.toNat?) (← bool? st) (← kOf k))
+  | ["m", "piece", i, b, len, n, k] => do
+    pure (.mPiece (← i.toNat?) (← b.toNat?) (← len.toNat?) (← n.toNat?) (← kOf k))
   | ["m", "ext0", q, px, dh] => do
     let q ← q.toNat?
     let px ← optNat px
@@ -86,7 +86,8 @@ def u32ok (n : Nat) : Bool := n < 4294967296
 
 def opOk : PeerOut.Op → Bool
   | .mHave i | .mAllowedFast i | .mDontHave i | .eCancel i | .eCancelPiece i => u32ok i
-  | .mReject i b _ | .mPiece i b _ _ => u32ok i && u32ok b
+  | .mReject i b _ => u32ok i && u32ok b
+  | .mPiece i b len n _ => u32ok i && u32ok b && u32ok len && u32ok n
   | .eHave i _ => u32ok i
   | .eRequest cs _ => cs.all u32ok
   | .mExt0 q m => u32ok q && (match m with | none => true | some (a, b) => a < 256 && b < 256)
